@@ -19,6 +19,7 @@ BaseTerms == { Fld("T1", "b"), Num("7"), [k |-> "str", n |-> "s"],
                [k |-> "isnull", a |-> Fld("T1", "b")], [k |-> "in", a |-> Fld("T1", "b"), items |-> <<Num("1"), Num("2")>>],
                [k |-> "between", a |-> Fld("T1", "b"), lo |-> Num("1"), hi |-> Num("5")],
                [k |-> "call", f |-> "UPPER", args |-> <<Fld("T1", "b")>>], [k |-> "call", f |-> "SUM", args |-> <<Fld("T1", "b")>>],
+               [k |-> "call", f |-> "COALESCE", args |-> <<Fld("T1", "b")>>],      \* (a function of ONE argument that usually has more)
                [k |-> "case", w |-> Cmp(Fld("T1", "b"), Num("1")), t |-> Num("2"), e |-> Num("3")] }
 Terms == {WithAl(t, "ala") : t \in BaseTerms} \cup {[k |-> "ext", cls |-> c, al |-> "ala"] : c \in ExtClasses}
 
@@ -34,7 +35,9 @@ Positions == {"select-item", "select-two", "operand-arith", "operand-func", "ope
               "operand-concat-first", "operand-concat-last", "operand-substring", "operand-cast", "operand-min", "operand-avg", "operand-lower", "operand-length",
               "operand-window-partition", "operand-window-order", "operand-in-item", "operand-between-bound", "operand-isnull", "operand-neg", "operand-not",
               \* the aliased term IS the whole condition of WHERE / HAVING / JOIN ON (not an operand of one)
-              "where-whole", "having-whole", "join-on-whole"}
+              "where-whole", "having-whole", "join-on-whole",
+              \* GROUP BY / ORDER BY over an un-aliased COLUMN whose name is the alias of another select item (a column, not a reference)
+              "groupby-column-named-as-alias", "orderby-column-named-as-alias"}
 
 Sel(ts) == [m |-> "select", terms |-> ts]
 Outer(t) == WithAl(t, "alx")
@@ -53,6 +56,10 @@ Program(t, p) ==
       [] p = "where-right" -> <<from, plain, [m |-> "where", crit |-> Cmp(Fld("T1", "c"), t)]>>
       [] p = "having-right" -> <<from, plain, [m |-> "having", crit |-> Cmp(Fld("T1", "c"), t)]>>
       [] p = "operand-func-second" -> <<from, Sel(<<Outer([k |-> "call", f |-> "COALESCE", args |-> <<Fld("T1", "c"), t>>])>>)>>
+      [] p = "groupby-column-named-as-alias" -> <<from, [m |-> "join", item |-> "T2", how |-> "", kind |-> "on", crit |-> Cmp(Fld("T1", "a"), Fld("T2", "a")), cols |-> <<>>],
+                                                  Sel(<<t>>), [m |-> "groupby", terms |-> <<Fld("T1", "ala")>>]>>
+      [] p = "orderby-column-named-as-alias" -> <<from, [m |-> "join", item |-> "T2", how |-> "", kind |-> "on", crit |-> Cmp(Fld("T1", "a"), Fld("T2", "a")), cols |-> <<>>],
+                                                  Sel(<<t>>), [m |-> "orderby", terms |-> <<Fld("T1", "ala")>>, dir |-> ""]>>
       [] p = "where-whole" -> <<from, plain, [m |-> "where", crit |-> t]>>
       [] p = "having-whole" -> <<from, plain, [m |-> "having", crit |-> t]>>
       [] p = "join-on-whole" -> <<from, [m |-> "join", item |-> "T2", how |-> "", kind |-> "on", crit |-> t, cols |-> <<>>], plain>>
